@@ -57,8 +57,14 @@ func c18LenSweep(server string, maxTx uint32) gProg {
 	return p
 }
 
-func c18WriteProgram(rng *rand.Rand, server string, n int) gProg {
+// c18WriteProgram: on a read-only server the handle the WRITEs name is one opened for reading (a handle for writing
+// cannot be had there); every one of them is refused before the handle is looked at, with its frame — up to a whole
+// page — lent for the time until the refusal has been sent.
+func c18WriteProgram(rng *rand.Rand, server string, n int, readOnly bool) gProg {
 	p := gProg{Server: server, Handles: []gHandle{{Name: "w0", Kind: "put", Path: "g0"}, {Name: "r0", Kind: "get", Path: "f0"}}}
+	if readOnly {
+		p.Handles[0] = gHandle{Name: "w0", Kind: "get", Path: "f1"}
+	}
 	lens := []uint32{0, 1, 32768, 100000, 262122} // 262122: the largest WRITE a frame of maxMsgLength can carry with a 1-character handle
 	for i := 0; i < n; i++ {
 		if rng.Intn(3) == 0 {
@@ -66,6 +72,58 @@ func c18WriteProgram(rng *rand.Rand, server string, n int) gProg {
 			continue
 		}
 		p.Ops = append(p.Ops, gOp{K: "write", H: "w0", Off: int64(i) * 262144, Len: lens[rng.Intn(len(lens))], ID: uint32(1 + i)})
+	}
+	return p
+}
+
+// c18Opts: the option combinations every family of streams is run under (besides allocator off / on, which is the
+// pair of runs compared, and max-tx-packet, which the read-lengths family varies).
+func c18Opts(server string) []c02Opt {
+	if server == "os" {
+		return []c02Opt{{}, {ReadOnly: true}, {WorkDir: true}, {ReadOnly: true, WorkDir: true}}
+	}
+	return []c02Opt{{}, {WorkDir: true}}
+}
+
+// c18PathProgram: path requests only (served without any handle), in the relative and the absolute form, with
+// READs between them: on a server with a working / start directory every one of them goes through the path
+// resolution, on a read-only server the modifying ones are refused.
+func c18PathProgram(rng *rand.Rand, server string, n int) gProg {
+	p := gProg{Server: server, Handles: []gHandle{{Name: "r0", Kind: "get", Path: "f0"}}}
+	for i := 0; i < n; i++ {
+		var o gOp
+		switch rng.Intn(12) {
+		case 0:
+			o = gOp{K: "stat", P: []string{"s0", "sd", "lnk", fmt.Sprintf("missing%d", i)}[rng.Intn(4)]}
+		case 1:
+			o = gOp{K: "lstat", P: []string{"s0", "sd", fmt.Sprintf("missing%d", i)}[rng.Intn(3)]}
+		case 2:
+			o = gOp{K: "realpath", P: []string{"s0", "sd/../s1", "missing/x", "."}[rng.Intn(4)]}
+		case 3:
+			o = gOp{K: "readlink", P: []string{"lnk", fmt.Sprintf("missing%d", i)}[rng.Intn(2)]}
+		case 4:
+			o = gOp{K: "mkdir", P: fmt.Sprintf("mk%d", i)}
+		case 5:
+			o = gOp{K: "remove", P: fmt.Sprintf("rm%d", i)}
+		case 6:
+			o = gOp{K: "rename", P: fmt.Sprintf("rn%d", i), P2: fmt.Sprintf("rn%d.to", i)}
+		case 7:
+			o = gOp{K: "symlink", P: "s0", P2: fmt.Sprintf("sl%d", i)}
+		case 8:
+			o = gOp{K: "opendir", P: []string{"sd", "s0", fmt.Sprintf("missing%d", i)}[rng.Intn(3)]}
+		case 9:
+			o = gOp{K: []string{"open", "openrw", "openw"}[rng.Intn(3)], P: "s1"}
+			if o.K == "openw" {
+				o.P = fmt.Sprintf("ow%d", i)
+			}
+		case 10:
+			o = gOp{K: "setstat", P: fmt.Sprintf("ss%d", i), AF: wire.APerm}
+		default:
+			o = gOp{K: "read", H: "r0", Off: int64(i) * 1009, Len: []uint32{1, 1000, 32768}[rng.Intn(3)]}
+		}
+		o.Abs = o.P != "" && rng.Intn(4) == 0
+		o.ID = uint32(1 + i)
+		p.Ops = append(p.Ops, o)
 	}
 	return p
 }
@@ -260,6 +318,29 @@ func c18Summarise(res c18Result, modelOK bool) gSummary {
 	hist("mode=" + mode)
 	hist(fmt.Sprintf("depth=%02d", len(p.Ops)))
 	hist(fmt.Sprintf("max-tx=%d", p.MaxTx))
+	opt := c02OptOf(p)
+	hist("options=" + srv + "/" + opt.text())
+	for _, t := range opt.tokens() {
+		hist("option=" + srv + "/" + t + "/family=" + st.Fam)
+	}
+	if rts := gRoutes(p, st.Case.abs("/R")); len(rts) == len(p.Ops) {
+		for i, rt := range rts {
+			switch {
+			case rt.Denied:
+				hist("request-refused-by-read-only-server=" + p.Ops[i].K)
+				if p.Ops[i].K == "write" {
+					hist(fmt.Sprintf("refused-write-len=%06d", p.Ops[i].Len))
+				}
+			case rt.NoCall != "":
+				hist("request-answered-without-handler=" + p.Ops[i].K + "/no-" + rt.NoCall)
+			case rt.Fallback != "":
+				hist("request-served-by-fallback=" + p.Ops[i].K + "/" + rt.Fallback)
+			}
+			if p.WorkDir && p.Ops[i].P != "" {
+				hist("path-form=" + map[bool]string{false: "relative", true: "absolute"}[p.Ops[i].Abs])
+			}
+		}
+	}
 	for _, o := range p.Ops {
 		hist("request=" + o.K)
 		if o.K == "read" && st.Fam == "read-lengths" {
@@ -333,11 +414,20 @@ func c18Summarise(res c18Result, modelOK bool) gSummary {
 				fitsPage = false
 			}
 		}
-		if total <= 40000 && allHeld && fitsPage && len(p.Ops) <= 8 {
-			abs := st.Case.abs("/R")
+		if !(total <= 40000 && allHeld && fitsPage && len(p.Ops) <= 8) {
+			why := "replies-over-40000-bytes-or-more-than-8-requests"
+			switch {
+			case !fitsPage:
+				why = "read-longer-than-a-page"
+			case !allHeld && total <= 40000 && len(p.Ops) <= 8:
+				why = "a-request-is-answered-without-a-held-call"
+			}
+			hist("model-comparison=skipped/" + why)
+		} else {
+			hist("model-comparison=done")
 			var frames [][]byte
 			for _, o := range p.Ops {
-				frames = append(frames, o.frame(abs, "1"))
+				frames = append(frames, o.frame(st.Case.sent("/R", o), "1"))
 			}
 			var ws []string
 			for _, f := range on.Frames {
@@ -361,7 +451,7 @@ var c18Bits = "1111"
 
 func checkC18(c *lib.Ctx) {
 	r := c.R
-	r.Rule = "request streams: (mixed) PRNG pipelines of depth 1…30 over all request kinds incl. failing ones; (read-lengths) READs of length 0, 1, 2, 32767…32769, 65535…65537, 100000, 262130…262132 (= page − 13 ± 1), 262143, 262144 and 300000 under max-tx-packet 32768 (default), 65536, 262131 and 262144, some crossing or past end of file; (writes) WRITEs up to the largest frame (262122 bytes); (held) 24…64 READs with one request held back while all others complete. Each stream is run serially (request after reply), pipelined un-gated, pipelined with PRNG handler durations, and pipelined with every instrumented call held and released in a chosen order (fifo, lifo, uniform, earliest-held-longest, hold-request-k) — each time against the server WITHOUT and WITH the allocator, same scratch tree and same forced order. A case = (server, stream, mode, order) = one pair of runs; non-trivial = at least one DATA reply or at least two requests in flight; distinct by (server, program, mode, order)"
+	r.Rule = "request streams: (mixed) PRNG pipelines of depth 1…30 over all request kinds incl. failing ones; (read-lengths) READs of length 0, 1, 2, 32767…32769, 65535…65537, 100000, 262130…262132 (= page − 13 ± 1), 262143, 262144 and 300000 under max-tx-packet 32768 (default), 65536, 262131 and 262144, some crossing or past end of file; (writes) WRITEs up to the largest frame (262122 bytes); (held) 24…64 READs with one request held back while all others complete; (paths) path requests of every kind in relative and absolute form between READs. Server options: every stream is run on servers started with ReadOnly() x WithServerWorkingDirectory (os-backed; a read-only server refuses every modifying request — WRITEs of 0 … 262122 bytes among them — with PERMISSION_DENIED before any handler runs, the page of the request frame must come back all the same) resp. WithStartDirectory (request server), paths then sent relative (one in four absolute); the mixed family on the request server also with handler sets lacking optional interfaces; quick: the combinations rotate over the streams of a family and the length sweep runs under every one, thorough: every stream of the read-lengths, writes, held and paths families under every combination. Each stream is run serially (request after reply), pipelined un-gated, pipelined with PRNG handler durations, and pipelined with every instrumented call held and released in a chosen order (fifo, lifo, uniform, earliest-held-longest, hold-request-k) — each time against the server WITHOUT and WITH the allocator, same scratch tree and same forced order. A case = (server, stream, mode, order) = one pair of runs; non-trivial = at least one DATA reply or at least two requests in flight; distinct by (server, options, program, mode, order)"
 	thorough := c.Tier == "thorough"
 	if t := gCurCfg(c, "c18", "11111:262144:32768"); len(t) >= 4 {
 		c18Bits = t[:4]
@@ -411,24 +501,71 @@ func checkC18(c *lib.Ctx) {
 			}
 		}
 		for _, server := range []string{"rs", "os"} {
-			nMixed, nReads, nWrites, nHeld := 150, 12, 12, 30
+			nMixed, nReads, nWrites, nHeld, nPaths := 150, 12, 12, 30, 16
 			if thorough {
-				nMixed, nReads, nWrites, nHeld = 5000, 300, 300, 1000
+				nMixed, nReads, nWrites, nHeld, nPaths = 5000, 150, 300, 500, 200 // the last four times the 4 (os-backed) / 2 (request server) option combinations
 			}
+			// Options. Every stream below is run (allocator off, then on) on a server started with an option
+			// combination: os-backed ReadOnly x working directory, request server start directory (c18Opts) and, for
+			// the mixed family on the request server, a handler set lacking optional interfaces (dealt from the deck
+			// of C02). quick: the combinations rotate over the streams of a family; thorough: every stream of the
+			// read-lengths, writes, held and paths families under every combination.
+			opts := c18Opts(server)
+			turn := 0
+			under := func(f func(o c02Opt)) {
+				turn++
+				for j, o := range opts {
+					if thorough || j == turn%len(opts) {
+						f(o)
+					}
+				}
+			}
+			deck := newC02Deck(c.Rand, server, thorough, nil)
 			for k := 0; k < nMixed; k++ {
-				g := newC02Gen(c.Rand, server)
+				g := newC02OptGen(c.Rand, server, deck.next().Opt)
 				g.noMis, g.noTime = true, server == "os"
 				p := g.program(1+c.Rand.Intn(30), []string{"seq", "rand", "same"}[c.Rand.Intn(3)])
 				add("mixed", p, []string{"serial", "free", "sleep"}[k%3], "gated/"+styles[c.Rand.Intn(4)])
 			}
 			for _, mt := range []uint32{0, 65536, c18PageSize - 13, c18PageSize} {
-				add("read-lengths", c18LenSweep(server, mt), "serial", "free", "gated/fifo", "gated/lifo", "gated/uniform")
+				for _, o := range opts { // the sweep over every length: under every combination in both tiers
+					p := c18LenSweep(server, mt)
+					o.apply(&p)
+					if o.zero() || thorough {
+						add("read-lengths", p, "serial", "free", "gated/fifo", "gated/lifo", "gated/uniform")
+					} else {
+						add("read-lengths", p, "serial", "gated/uniform")
+					}
+				}
 				for k := 0; k < nReads; k++ {
-					add("read-lengths", c18ReadProgram(c.Rand, server, mt, 2+c.Rand.Intn(14)), []string{"serial", "free", "sleep"}[k%3], "gated/"+styles[c.Rand.Intn(4)])
+					p := c18ReadProgram(c.Rand, server, mt, 2+c.Rand.Intn(14))
+					under(func(o c02Opt) {
+						o.apply(&p)
+						add("read-lengths", p, []string{"serial", "free", "sleep"}[k%3], "gated/"+styles[c.Rand.Intn(4)])
+					})
 				}
 			}
 			for k := 0; k < nWrites; k++ {
-				add("writes", c18WriteProgram(c.Rand, server, 2+c.Rand.Intn(10)), []string{"serial", "free"}[k%2], "gated/"+styles[c.Rand.Intn(4)])
+				n, seed := 2+c.Rand.Intn(10), c.Rand.Int63()
+				under(func(o c02Opt) {
+					p := c18WriteProgram(rand.New(rand.NewSource(seed)), server, n, o.ReadOnly)
+					o.apply(&p)
+					add("writes", p, []string{"serial", "free"}[k%2], "gated/"+styles[c.Rand.Intn(4)])
+				})
+			}
+			if server == "os" && !thorough { // the refusal of WRITEs of every size by a read-only server: more of them than the rotation leaves
+				for k := 0; k < 8; k++ {
+					p := c18WriteProgram(c.Rand, server, 2+c.Rand.Intn(10), true)
+					c02Opt{ReadOnly: true, WorkDir: k%2 == 1}.apply(&p)
+					add("writes", p, []string{"serial", "free", "sleep"}[k%3], "gated/"+styles[c.Rand.Intn(4)])
+				}
+			}
+			for k := 0; k < nPaths; k++ {
+				p := c18PathProgram(c.Rand, server, 2+c.Rand.Intn(14))
+				under(func(o c02Opt) {
+					o.apply(&p)
+					add("paths", p, []string{"serial", "free", "sleep"}[k%3], "gated/"+styles[c.Rand.Intn(4)])
+				})
 			}
 			for k := 0; k < nHeld; k++ {
 				p := c18ManyReads(c.Rand, server, 24+c.Rand.Intn(41))
@@ -436,13 +573,30 @@ func checkC18(c *lib.Ctx) {
 				if k%3 == 0 {
 					hold = 0
 				}
-				jobs = append(jobs, gJSON(c18Stream{Case: gCase{Prog: p, Mode: "gated", Order: c18HoldOrder(p, hold, c.Rand), Tag: fmt.Sprintf("held/request-%d-last", hold)}, Fam: "held"}))
+				under(func(o c02Opt) {
+					o.apply(&p)
+					jobs = append(jobs, gJSON(c18Stream{Case: gCase{Prog: p, Mode: "gated", Order: c18HoldOrder(p, hold, c.Rand), Tag: fmt.Sprintf("held/request-%d-last", hold)}, Fam: "held"}))
+				})
 			}
 		}
 	}
 
 	sums := gRunBatches(c, "c18", jobs, 1000, modelOK, describe)
 	gMerge(r, sums, 4)
+	if modelOK {
+		done, skipped := 0, 0
+		for _, s := range sums {
+			for _, h := range s.Hist {
+				switch {
+				case h == "model-comparison=done":
+					done++
+				case strings.HasPrefix(h, "model-comparison=skipped/"):
+					skipped++
+				}
+			}
+		}
+		r.Note("allocator model: %d pairs of runs replayed, %d serial/gated pairs not replayed (reasons in the histogram under model-comparison=skipped/…: the model takes schedules in which every request makes a held call, replies of at most 40000 bytes in all, at most 8 requests; a pipelined stream with a request that a read-only server refuses or that is answered without a handler has no such schedule); the options ReadOnly and working / start directory do not appear in the model's configuration, its actions are the same with and without them", done, skipped)
+	}
 	if modelOK {
 		var lines []string
 		var wants []c18Want
